@@ -357,6 +357,11 @@ def r4_image_dtype(ctx):
             ctx.check(okp, RUN + "#dtype-restore-reached", "every merge is followed by the dtype restore" if okp else "a path leaves the step after a merge without restoring the image dtype", where=r, node=mg)
 
 
+def stmt_calls_in(ctx, f, loop) -> bool:
+    """The loop runs the pipeline (contains the Processor.run_pipeline call)."""
+    return any(contains(loop, c) for c in stmt_calls(f, ctx.R, {"pyxel.pipelines.processor:Processor.run_pipeline"}))
+
+
 def r5_pass_through(ctx):
     """dct['/scene'] <- detector.scene.data and dct['/data'] <- detector.data untransformed on every path; flat and hierarchical layouts store the same accumulator; the function returns DataTree.from_dict(dct)."""
     f = ctx.func(RUN)
@@ -371,6 +376,15 @@ def r5_pass_through(ctx):
         v = dotted(expand(f, s.value))
         ok = v == src
         ctx.check(ok, RUN + f"#{key}", f"{key} <- {src}" if ok else f"result node {key!r} is {norm(expand(f, s.value))[:80]} instead of {src}", where=f, node=s)
+        # ... and it is READ after the last step: models (load_detector) may rebind the container,
+        # so an alias taken before the step loop is the stale object
+        steps = [l for l in loops_in(f.node) if isinstance(l, ast.For) and stmt_calls_in(ctx, f, l)]
+        if steps and isinstance(s.value, ast.Name):
+            late = True
+            for st_, val_ in local_defs(f, s.value.id):
+                if val_ is not None and st_.lineno < steps[0].end_lineno and "detector" in norm(val_):
+                    late = False
+            ctx.check(late, RUN + f"#{key}-fresh", "read from the detector after the last step" if late else f"result node {key!r} is an alias (`{s.value.id}`) taken before / inside the step loop: a container replaced by a model (e.g. load_detector) is missing from the result", where=f, node=s)
         nodes = g.nodes_of(s)
         lo, hi = g.count_events(g.entry, [g.exit_return], nodes)
         ctx.check(lo >= 1, RUN + f"#{key}-always", "stored on every path" if lo >= 1 else f"result node {key!r} is missing on some path", where=f, node=s)
